@@ -45,6 +45,15 @@ BUILT = {
  "C17": dict(tech=TV + " of hardening walks against the Mono state machine (TraceHarden.tla)",
    text="Seeded random base systems are hardened one parameter at a time (WCET+1, jitter+, period-1, blocking+, interfering NP segment+1, task added, limit raised); after each step all nine dedicated-processor analyses (and in the ros2 stage the ROS 2 analyses incl. supply weakening) are re-run on the real library; TLC replays the recorded walk through the state machine whose Harden action demands res' >= res (Err on top) and whose RaiseLimit action demands that Ok results are unchanged.",
    note="The task-under-analysis' own last non-preemptive segment is not treated as a hardening (DESIGN.md C17)."),
+ "C07": dict(tech=TV + " against the definitional ROS 2 analyses of Ros2Analyses.tla (every offset, linear-scan fixed points, SBF from Supply.tla)",
+   text="The six ROS 2 analyses are called on 9000 (thorough 60000) seeded random inputs: event source / timer / polling-point callback / chain over nested request bounds, rr and bw subchains (singleton and multi-callback, all four callback kinds, known and unknown priorities, Scalar/Multiframe/Curve costs, assumed bounds WCET..WCET+20) under dedicated / periodic / constrained supplies; TLC re-evaluates the defining inequalities naively over the recorded demand / arrival / cost tables with the supply-bound function computed from the reservation parameters alone and accepts iff value and Ok/Err agree.",
+   note="Domain W: the callback under analysis releases at least one job. Known finding F9 (ArrivalCurvePrefix) listed."),
+ "C04": dict(tech=WM + " (spec/Ros2Exec.tla executor + reservation automaton; spec/Sched.tla FIFO server under a reservation) + " + TV + " (Ros2Analyses.tla)",
+   text="Executor workloads (timers, polled callbacks, chains of polled callbacks, random priority order) under dedicated / periodic / constrained reservations: bounds from rta_timer, rta_polling_point_callback and rta_processing_chain composed as the ECRTS'19 analysis prescribes; TLC explores EVERY execution of the executor world model (A1-A5: timers live and first, ready set refreshed only when empty, non-preemptive callbacks, successor activation at completion; all arrival sequences, execution times 1..C and budget placements; unbounded time) against 'no pending instance reaches age R' (chains: age since the source arrival). Event sources are checked as FIFO servers under a reservation in Sched.tla against rta_event_source. A further stage validates the same analyses against their definitional evaluation.",
+   note="Complete per explored workload; workloads are seeded random with <=4 (5) callbacks, small periods, and a state-space estimate below 1.5e6 (4e7); only workloads in which every callback has a claim are explored. The executor semantics A1-A5 are the trusted model (written from the papers' model as remembered; no violation on the unchanged tree, seeded defects are found)."),
+ "C05": dict(tech=WM + " (spec/Ros2Exec.tla, all priority orders consistent with the known priorities) + " + TV + " (Ros2Analyses.tla)",
+   text="Workloads mixing timers, polled callbacks with known priority and with unknown priority (external arrival curves): for rr and for bw the bound vector is computed by iterating the real singleton-subchain analysis upwards from the WCETs until it reproduces itself; TLC then explores every execution of the executor world model for every priority order consistent with the known priorities against 'no pending instance reaches age R_i'. A further stage validates rr/bw against their definitional evaluation.",
+   note="As C04; multi-callback subchains are covered equationally (C07), the property speaks of singleton fixed points."),
 }
 m = {"version": 1, "setup_cmd": "bin/vf setup",
      "hooks": {"guard": "--cfg rta_verif",
